@@ -336,7 +336,13 @@ def gen(S, tier):
                     value = [w.pick(["red", "blue", "green"]), w.chance(0.5), w.chance(0.7)]
                 ops.append(["customise", w.randrange(n_styles), what, value])
             else:
-                ops.append(["render", w.randrange(n_styles)])
+                i = w.randrange(n_styles)
+                ops.append(["render", i])
+                if w.chance(0.3):
+                    # rendered, then the Style object it holds edited in place, then rendered again
+                    ops.append(["customise", i, w.pick(["cell_style", "header_style", "border_recolour"]),
+                                [w.pick(["red", "blue", "green"]), w.chance(0.5), True]])
+                    ops.append(["render", i])
         ops.append(["render", w.randrange(n_styles)])
         return {"class": "style", "cfg": cfg, "ops": ops, "rows": rows, "header": header, "lines": [], "renders": []}
     renders = []
